@@ -70,7 +70,7 @@ void AttributesTools::getAttributesMap(
     string arg = argv2[i];
     if (arg == "")
       continue; // Skipping void line.
-    while (arg[arg.size() - 1] == '\\')
+    while (!arg.empty() && arg[arg.size() - 1] == '\\')
     {
       // Splitted line
       i++;
